@@ -128,6 +128,7 @@ pub fn configs(tier: Tier) -> Vec<InCfg> {
                 app_sends: vec![],
                 skip_connect: false,
                 known: vec![],
+                bp: 0,
             });
         }
     }
